@@ -33,6 +33,8 @@ class Unit:
         self.used_loop_keys = set()
         self.rules = collections.Counter()
         self.literals = collections.OrderedDict()   # string literal text (with quotes) -> small id
+        self.contract_keys = None                   # keys that have a contract (None: every callee must have one)
+        self.inlined = []
         self.slices = {}                            # fn key -> AST statement kind at which the extracted slice starts
         self.summaries = {}                         # (fn key, loop ordinal) -> C statements replacing the loop
         self.ghosts = {}                            # (fn key, location) -> [C statements] (ghost code from the contract)
@@ -93,6 +95,31 @@ class Unit:
         for c in chain:
             if c not in self.excs:
                 self.excs.append(c)
+
+    def opaque_record(self, q):
+        """a class whose state cannot be represented (SQL handles, shared_ptr, ...): its methods lose their `this`
+        argument, calls on its members of such types lose their receiver; only calls by contract are possible"""
+        if q not in self.P.records:
+            return True
+        try:
+            for nm, ft, _ in self.P.record_fields(q):
+                if self._has_opaque(ft):
+                    return True
+        except Unsupported:
+            return True
+        return False
+
+    def _has_opaque(self, t, depth=0):
+        k = t[0]
+        if k == 'opaque':
+            return True
+        if k in ('ptr', 'ref', 'vec', 'opt'):
+            return self._has_opaque(t[1], depth + 1)
+        if k == 'pair':
+            return self._has_opaque(t[1], depth + 1) or self._has_opaque(t[2], depth + 1)
+        if k == 'rec' and depth < 6:
+            return self.opaque_record(t[1])
+        return False
 
     def literal_id(self, lit):
         if lit not in self.literals:
@@ -269,9 +296,67 @@ class Unit:
             elif ft[0] in ('str', 'opt', 'pair'):
                 body.append('  r.%s = (%s){0};' % (fn_, cname(ft)))
             elif ft[0] == 'rec':
-                body.append('  r.%s = %s();' % (fn_, self.default_fn(ft, zero)))
+                dc = self.find_ctor(ft[1], 'void ()')
+                body.append('  r.%s = %s();' % (fn_, self.ctor_fn(ft[1], dc) if dc is not None else self.default_fn(ft, zero)))
         body.append('  return r;')
         self.helpers[name] = 'static %s %s(void)\n{\n%s\n}\n' % (ct, name, '\n'.join(body))
+        self.helpers.move_to_end(name)
+        return name
+
+    def find_ctor(self, q, ctor_type):
+        want = re.sub(r'\s+|noexcept|constexpr', '', ctor_type)
+        for c in self.P.ctors.get(q, []):
+            have = re.sub(r'\s+|noexcept|constexpr', '', c['type']['qualType'])
+            if have == want:
+                return c
+        return None
+
+    def ctor_fn(self, q, ctor):
+        """user-provided constructor -> C function returning the constructed object: default member initialisers,
+        then the mem-initialiser list, then the body"""
+        sig = re.sub(r'\s+', '', ctor['type']['qualType'])
+        name = 'ctor_%s_%s' % (mangle(q), hashlib.sha1(sig.encode()).hexdigest()[:6])
+        if name in self.helpers:
+            return name
+        self.helpers[name] = None
+        t = ('rec', q)
+        self.need_type(t)
+        ct = cname(t)
+        ft = FnTranslator(self.P, self, '<constructor of %s>' % q, {'kind': 'FunctionDecl', 'type': {'qualType': 'void ()'}})
+        ft.ret_t = ('void',)
+        params = []
+        for c in ctor.get('inner', []) or []:
+            if c.get('kind') == 'ParmVarDecl':
+                pt = self.P.typeof(c)
+                ft.local_names[c['id']] = (c['name'], pt)
+                params.append('%s* %s' % (cname(pt[1]), c['name']) if pt[0] == 'ref' else '%s %s' % (cname(pt), c['name']))
+        body = ['  %s __obj;' % ct]
+        inits = {}
+        for c in ctor.get('inner', []) or []:
+            if c.get('kind') == 'CXXCtorInitializer':
+                fld = c.get('anyInit', {}).get('name')
+                ex = [x for x in c.get('inner', []) or [] if x]
+                if fld is None or not ex:
+                    raise Unsupported('constructor initialiser form in %s' % q)
+                inits[fld] = ex[0]
+        for fn_, fty, nsdmi in self.P.record_fields(q):
+            src = inits.get(fn_, nsdmi)
+            if src is not None:
+                e = ft.rvalue_for(src, fty)
+                body += ['  ' + l for l in ft.flush()]
+                body.append('  __obj.%s = %s;' % (fn_, e))
+            elif fty[0] == 'vec':
+                self.need_model('vec', fty)
+                body.append('  __obj.%s = vec_%s_default();' % (fn_, tag(fty[1])))
+            elif fty[0] in ('str', 'opt', 'pair'):
+                body.append('  __obj.%s = (%s){0};' % (fn_, cname(fty)))
+            elif fty[0] == 'rec':
+                body.append('  __obj.%s = %s;' % (fn_, ft.default_value(fty)))
+        cb = [c for c in ctor.get('inner', []) or [] if c.get('kind') == 'CompoundStmt']
+        if cb and cb[0].get('inner'):
+            raise Unsupported('constructor of %s has a non-empty body' % q)
+        body.append('  return __obj;')
+        self.helpers[name] = 'static %s %s(%s)\n{\n%s\n}\n' % (ct, name, ', '.join(params) or 'void', '\n'.join(body))
         self.helpers.move_to_end(name)
         return name
 
@@ -402,8 +487,13 @@ class Unit:
             if key in self.done or key in self.protos:
                 continue
             if self.mode == 'modular' and (key in self.stubbed or key not in keys):
-                self.protos[key] = self.prototype(key)
-                continue
+                if self.contract_keys is not None and key not in self.contract_keys and key in self.P.functions:
+                    # a djinterop callee without a contract (e.g. a freshly extracted helper): its real body is translated
+                    # too and verified as part of the caller (recorded in the evidence as inlined)
+                    self.inlined.append(key)
+                else:
+                    self.protos[key] = self.prototype(key)
+                    continue
             fn = self._fn(key)
             ft = FnTranslator(self.P, self, key, fn)
             head, lines = ft.translate()
@@ -444,7 +534,7 @@ class Unit:
         out.append('#ifndef VERIF_NO_EXC_DEFS')
         out.append('int verif_exc = 0;')
         out.append('#ifdef VERIF_CBMC')
-        out.append('size_t verif_g; size_t verif_sum; verif_call_t verif_calls[24]; size_t verif_ncalls; const void* verif_mark[4];')
+        out.append('size_t verif_g; size_t verif_sum; size_t verif_elem; verif_call_t verif_calls[24]; size_t verif_ncalls; const void* verif_mark[4];')
         out.append('#endif')
         out.append('static int verif_exc_parent_of(int e) { switch (e) {')
         depth = 1
